@@ -77,7 +77,7 @@ def gen_model(rnd, tier='quick'):
              'parent': None, 'custom': {}}
         for c in customs:
             if rnd.random() < 0.6:
-                t['custom'][c] = rnd.choice([rtext(rnd), 5, 1.5, True, None, 'v'])
+                t['custom'][c] = rnd.choice([rtext(rnd), 5, 1.5, True, None, 'v', d0 + td(days=2), REAL(2030, 3, 12, 8, 30)])
         if tasks and rnd.random() < 0.55:
             t['parent'] = rnd.randrange(len(tasks))
         tasks.append(t)
